@@ -79,7 +79,7 @@ CHECKS = {
  "C10": ("model_checking",
          "exhaustive enumeration of (project, hash seed) pairs on the real executable with owned seed nondeterminism (getrandom shim)",
          "DESIGN.md §4 C10",
-         "The seeds of every RandomState in the real `mos` process are chosen by the harness (LD_PRELOAD getrandom shim); every project of the enumerated space (statement sequences with repeated undefined names, macros, three import forms, clean/erroneous imported files, listing and VICE symbols) is built under every seed 0..N-1 in a fresh process and directory, and stdout plus every output file must be byte-identical over all seeds. A canary shows how many HashSet orders the N seeds produce; a labelled sampled run without the shim is a tripwire only.",
+         "The seeds of every RandomState in the real `mos` process are chosen by the harness (LD_PRELOAD getrandom shim); every project of the enumerated space (statement sequences over 17 statements with repeated undefined names, macros, five import forms over four importable files of which two import further files, imports of two missing files; imported files clean / with a semantic error / each with a syntax error and missing imports of its own; listing and VICE symbols) is built under every seed 0..N-1 in a fresh process and directory, and stdout plus every output file must be byte-identical over all seeds. A canary shows how many HashSet orders the N seeds produce; a labelled sampled run without the shim is a tripwire only.",
          "Exhaustive over (project, seed < N), N = 8 quick / 32 thorough; the seed space itself is not enumerable. The shim owns libc getrandom/getentropy."),
  "C15": ("exploration",
          "bounded-exhaustive enumeration of a scope-shape program catalogue x every identifier occurrence x new names on the real server, apply-edit-and-reassemble oracle",
